@@ -37,6 +37,8 @@ def c_unit(w, sg, kind):
     src = ["#include <stdatomic.h>", "typedef %s T;" % T,
            "struct S { char pad; _Atomic T x; T after; };",
            "_Atomic T g; struct S s; _Atomic T arr[4]; T cnt;"]
+    # sensitivity control: the same update through a non-atomic lvalue (must lose updates)
+    src.append("long f_ctl(%sp, long v, long e) { T *q; q = (T *)&g; *q += v; return 0; }" % ptype)
     for op in ALL_OPS:
         head = "long f_%s(%sp, long v, long e) {" % (op, ptype)
         if op in OPS_ASSIGN:
@@ -67,7 +69,8 @@ def op_values(op, w, sg, nt, reps):
     for t in range(nt):
         for k in range(reps):
             i = idx(t, k)
-            V[t, k] = dict(add=i + 1, sub=i + 1, mul=i + 2, **{"and": 127 - (1 << i), "or": 1 << i, "xor": 1 << i},
+            # `+=` gets operands of both signs so that the object can return to an earlier value (ABA)
+            V[t, k] = dict(add=(i // 2 + 1) * (1 if i % 2 == 0 else -1) if base == op else i + 1, sub=i + 1, mul=i + 2, **{"and": 127 - (1 << i), "or": 1 << i, "xor": 1 << i},
                            shl=1, shr=1, preinc=1, predec=1, postinc=1, postdec=1, xchg=10 + i, cas=10 + i, casw=10 + i,
                            casinc=i + 1, lock=i + 1)[base]
     unsigned_small = (not sg) and w <= 2
@@ -252,6 +255,78 @@ def make_cases(ctx, units, coords):
     return cases, meta
 
 
+def stress_source(w, kinds, iters):
+    """pthread stress program: 4 threads x iters iterations per (kind, op); prints `kind op final expected ok`."""
+    T = WIDTHS[w][1]
+    lv = dict(global_="g", ptr="(*hp)", local="(*lp)", member="s.x", elem="arr[2]")
+    src = ["#include <stdatomic.h>", "int printf(const char *, ...); void *malloc(unsigned long);",
+           "typedef unsigned long pthread_t;",
+           "int pthread_create(pthread_t *, void *, void *(*)(void *), void *); int pthread_join(pthread_t, void **);",
+           "typedef %s T;" % T, "struct S { char pad; _Atomic T x; T after; };",
+           "_Atomic T g; struct S s; _Atomic T arr[4]; _Atomic T *hp; _Atomic T *lp; unsigned long cnt; _Atomic unsigned long ret_sum;",
+           "#define N %dL" % iters]
+    tests = []
+    for kind in kinds:
+        L = lv[kind if kind != "global" else "global_"]
+        bodies = dict(add="%s += 1;" % L, postinc="%s++;" % L, predec="--%s;" % L, xor="%s ^= (T)(1 << id);" % L,
+                      fsub="atomic_fetch_sub(&%s, 1);" % L, casinc="T o; T n; o = %s; do { n = o + 1; } while (!atomic_compare_exchange_weak(&%s, &o, n));" % (L, L),
+                      lock="while (atomic_exchange(&%s, 1)) ; cnt = cnt + 1; %s = 0;" % (L, L),
+                      xchg="mine += atomic_exchange(&%s, (T)(id + 1));" % L)
+        for op, body in bodies.items():
+            fn = "t_%s_%s" % (kind, op)
+            src.append("void *%s(void *a) { long id = (long)a; unsigned long mine = 0; for (long i = 0; i < N; i++) { %s } ret_sum += mine; return 0; }" % (fn, body))
+            tests.append((kind, op, fn, L))
+    src.append("static void run4(void *(*f)(void *)) { pthread_t th[4]; for (long i = 0; i < 4; i++) pthread_create(&th[i], 0, f, (void *)i); for (int i = 0; i < 4; i++) pthread_join(th[i], 0); }")
+    main = ["int main(void) { _Atomic T loc; hp = malloc(sizeof(T)); lp = &loc;"]
+    for kind, op, fn, L in tests:
+        init = {"add": 5, "postinc": 5, "predec": 5, "xor": 85, "fsub": 5, "casinc": 5, "lock": 0, "xchg": 7}[op]
+        main.append(" %s = %d; cnt = 0; ret_sum = 0; run4(%s);" % (L, init, fn))
+        if op == "lock":
+            main.append(' printf("%s %s %%lu %%lu %%d\\n", cnt, 4 * N, (int)%s);' % (kind, op, L))
+        elif op == "xchg":      # every value written is returned exactly once or is the final one
+            main.append(' printf("%s %s %%lu %%lu 0\\n", (unsigned long)ret_sum + (unsigned long)%s, %dUL + N * (1UL + 2 + 3 + 4));' % (kind, op, L, init))
+        else:
+            delta = {"add": "+ 4 * N", "postinc": "+ 4 * N", "casinc": "+ 4 * N", "predec": "- 4 * N", "fsub": "- 4 * N", "xor": ""}[op]
+            main.append(' printf("%s %s %%lu %%lu 0\\n", (unsigned long)%s, (unsigned long)(T)(%dUL %s));' % (kind, op, L, init, delta))
+    main.append(" return 0; }")
+    return "\n".join(src) + "\n" + "".join(main) + "\n"
+
+
+def stress(ctx, tree, q):
+    d = ctx.tmp("c16-stress")
+    kinds = ["global", "ptr", "local", "member", "elem"]
+    if q:
+        kinds = [kinds[ctx.seed % 5], "member" if ctx.seed % 5 != 3 else "global"]
+    iters = 100000 if q else 1000000
+
+    def one(w):
+        f = "%s/stress%d.c" % (d, w)
+        src = stress_source(w, kinds, iters)
+        open(f, "w").write(src)
+        r = vt.sh([tree + "/chibicc", "-I" + tree + "/include", "-c", "-o", f[:-2] + ".o", f], timeout=120)
+        if r.returncode:
+            raise Infra("chibicc failed on the stress program: " + r.stderr[-600:])
+        r = vt.sh(["cc", "-pthread", "-o", f[:-2] + ".exe", f[:-2] + ".o"], timeout=60)
+        if r.returncode:
+            raise Infra("link of the stress program failed: " + r.stderr[-600:])
+        p = subprocess.run([f[:-2] + ".exe"], capture_output=True, text=True, timeout=600)
+        if p.returncode:
+            raise Infra("stress program exited with %s" % p.returncode)
+        return w, src, [l.split() for l in p.stdout.splitlines()]
+    n = 0
+    for w, src, rows in vt.pmap(one, [1, 2, 4, 8], workers=4):
+        for kind, op, got, exp, lockword in rows:
+            n += 1
+            ctx.note_case("stress:w%d:%s:%s" % (w, kind, op), nontrivial=True)
+            if got != exp or lockword != "0":
+                ctx.report("stress:%s:%s:%s" % (kind, "op=" if op in ("add", "postinc", "predec", "xor", "fsub") else op,
+                                                 "lost-update" if got != exp else "lock-word-not-released"),
+                           "4 threads x %d iterations of %s on a %d-byte %s object: final value %s, expected %s" % (iters, op, w, kind, got, exp),
+                           case=dict(kind="stress", w=w, kinds=kinds, iters=iters, source=src, observed=got, expected=exp))
+    ctx.cov["traces_validated_against_impl"] += n
+    ctx.cov["stress_runs"] = n
+
+
 def run(ctx):
     q = ctx.quick
     tree = ctx.build()
@@ -259,20 +334,72 @@ def run(ctx):
     dom = domain(ctx.tier)
     units = compile_units(ctx, tree, {(w, sg, kind) for (w, sg, kind, _, _, _) in dom})
     ctx.phase("compiled %d units" % len(units))
-    coords = dom
-    cases, meta = make_cases(ctx, units, coords)
+    # 0. sensitivity control: a non-atomic update of the same object must be caught by the same machinery
+    ctl = [build_case(units[(4, True, "global")][2], "f_ctl", 4, True, "global", "fadd", 2, 1)]
+    by = run_batch(ctx, ctl, False, "control", workers=2)
+    if "lost-update" not in {v["verdict"] for v in by.get(1, [])}:
+        raise Infra("sensitivity control failed: TLC finds no lost update in a plain (non-atomic) `+=`")
+    # 1. Level A on the generated domain (AtomicObj.tla: Lin is exactly its set of terminal states)
+    sc = dom if not q else vt.subsample(dom, ctx.seed, 12)
+    cases, meta = make_cases(ctx, units, sc)
     ctx.phase("parsed %d cases" % len(cases))
-    by = run_batch(ctx, cases, False, "sc", workers=6)
+    pf = os.path.join(ctx.scratch, "prog-levelA.json")
+    json.dump([dict(c, code=[]) for c in cases], open(pf, "w"))
+    ctx.tlc_expect_ok("atomic", "AtomicObj", "AtomicObj.cfg", "Level A (atomic object) violates its own invariants", env=dict(PROG=pf), workers=4)
+    ctx.phase("level A")
+    # 2. every interleaving of the emitted code, sequentially consistent memory
+    by = run_batch(ctx, cases, False, "sc", workers=6 if q else 8)
     judge(ctx, cases, meta, by, False, "sc")
+    ctx.sample(dict(kind="case", name=cases[len(cases) // 2]["name"], instructions=len(cases[len(cases) // 2]["code"]),
+                    quiescent_outcomes=[(v["mem"], v["rets"]) for v in by.get(len(cases) // 2 + 1, [])][:4]))
     ctx.phase("sc batch")
-    return ctx.finish(rule="case = (width, signedness, object kind, operation, threads x repetitions); every interleaving of the emitted code explored by TLC",
-                      exhaustive=not q)
-
-
+    # 3. the same under x86-TSO store buffers
+    tso = dom if not q else vt.subsample([c for c in dom if c[3] in ("add", "postinc", "xchg", "cas", "casinc", "lock", "fxor")], ctx.seed + 3, 36)
+    tcases, tmeta = make_cases(ctx, units, tso)
+    by = run_batch(ctx, tcases, True, "tso", workers=6 if q else 8)
+    judge(ctx, tcases, tmeta, by, True, "tso")
+    ctx.phase("tso batch (%d cases)" % len(tcases))
+    # 4. retry loops terminate under weak fairness
+    w = (1, 2, 4, 8)[ctx.seed % 4]
+    live = [(w, True, ("global", "ptr", "elem")[ctx.seed % 3], op, 2, 2) for op in ("add", "casinc", "lock", "cas")]
+    if not q:
+        live = [(w, True, k, op, nt, r) for w in (1, 2, 4, 8) for k in ("global", "member") for op in ("add", "postdec", "casinc", "lock", "cas", "xchg")
+                for nt, r in ((2, 2), (3, 1))]
+    lcases, lmeta = make_cases(ctx, units, live)
+    pf = os.path.join(ctx.scratch, "prog-live.json")
+    json.dump(lcases, open(pf, "w"))
+    res = ctx.tlc("atomic", "Atomic", "Atomic_live.cfg", env=dict(PROG=pf), workers=4, timeout=1200)
+    if not res.ok:
+        p = ctx.replay_dir("liveness")
+        open(p + "/counterexample.txt", "w").write(strip_trace(res.trace_text()))
+        json.dump(dict(kind="live", coords=live), open(p + "/case.json", "w"))
+        ctx.report("atomic:liveness:retry-loop-does-not-terminate", "under weak fairness some thread never finishes its operation", p)
+    for c in lcases:
+        ctx.note_case(c["name"] + ":live")
+    ctx.phase("liveness (%d cases)" % len(lcases))
+    # 5. supplement: pthread stress runs, judged on final values only
+    stress(ctx, tree, q)
+    ctx.phase("stress")
+    ctx.assumptions += ["values are kept small (|v| < 2^30); a register is modelled as a 32-bit signed value plus a zero-/sign-extension flag",
+                        "an instruction is one atomic step, except unlocked read-modify-writes of shared memory, which are split into load and store",
+                        "atomic_fetch_* of include/stdatomic.h return the NEW value (mapped onto op=); the result is not judged, only the object",
+                        "stress runs do not control the schedule; they are judged on final values only"]
+    return ctx.finish(rule="case = (width, signedness, object kind, operation, threads x repetitions, memory model); TLC explores every interleaving of the emitted instruction sequences; distinct = distinct case name",
+                      exhaustive=not q, extra=dict(sc_cases=len(cases), tso_cases=len(tcases), liveness_cases=len(lcases)))
 def replay(ctx, path):
     c = json.load(open(os.path.join(path, "case.json")))
     c = c.get("case") or c
     tree = ctx.build()
+    if c.get("kind") == "stress":
+        stress(ctx, tree, c.get("iters", 100000) <= 100000)
+        return ctx.finish(rule="replay of the stress supplement")
+    if c.get("kind") == "live":
+        units = compile_units(ctx, tree, {(x[0], x[1], x[2]) for x in c["coords"]})
+        lcases, _ = make_cases(ctx, units, [tuple(x) for x in c["coords"]])
+        pf = os.path.join(ctx.scratch, "prog-live.json")
+        json.dump(lcases, open(pf, "w"))
+        ctx.tlc_expect_ok("atomic", "Atomic", "Atomic_live.cfg", "retry loop does not terminate under weak fairness", env=dict(PROG=pf), workers=4)
+        return ctx.finish(rule="replay of the liveness check")
     w, sg, kind, op, nt, reps = c["coord"]
     units = compile_units(ctx, tree, {(w, sg, kind)})
     cases, meta = make_cases(ctx, units, [(w, sg, kind, op, nt, reps)])
